@@ -56,6 +56,9 @@ CHECKS.update({
  "C16": dict(engine="fxsym", category="translation_validation", design_ref="DESIGN.md §4 C16",
    text="Per program of a grammar enumerated exhaustively up to the tier bound (1251 programs quick: mapped ops incl. torch.nn wrappers and conv1d, unmapped ops, every kind of add, residual blocks in both operand orders with 9 branch shapes incl. softmax/attention, skip = input / residual output / plain sum, heads, embedding, user replacements): the REAL unit_scale() runs through TorchDynamo on real inputs (must not raise); the captured original graph under an independent recipe interpreter and the graph the library produced are both executed on symbolic tensors (real U.* code) and unified on output and every input/parameter gradient for all data and dims.",
    note="Trusted: TorchDynamo's capture; the recipe interpreter vf/fxsym/interp.py (written from the User Guide statement, independent of the backend); engine S. Program axis enumerated, not solved. Weight re-initialisation checked concretely.", technique="translation validation of real Dynamo-captured graphs against an independent reference interpreter; symbolic unification with z3; concrete replay"),
+ "C18": dict(engine="fxsym", category="translation_validation", design_ref="DESIGN.md §4 C18",
+   text="Per program (C16 vocabulary + fan-out, bool/int intermediates, views, in-place adds, multiple outputs, conv): the graph TorchDynamo captured under the real track_scales() is interpreted twice on symbolic tensors - plainly, and by the library's real ScaleTrackingInterpreter / ScaleTrackingAutogradFunction - and unified: outputs and all gradients identical for all data; every recorded metric is the statistic term of the tensor (forward) and of the total accumulated gradient (backward) that flowed through that node; instrumented iff float; no backward metrics without gradient; a second forward-only call with other data reports that call's statistics. Plus the real track_scales run through Dynamo on real inputs (bit-identical outputs/gradients, recorded numbers = recomputed statistics) and analyse_module's tracer/interpreter symbolically.",
+   note="Trusted: TorchDynamo capture; engine S (statistics are opaque terms over universally quantified data; gradient accumulation per torch.autograd's contract). Numeric evaluation of mean/std/max is torch's.", technique="translation validation: instrumented vs plain symbolic interpretation of real Dynamo-captured graphs, unification with z3; concrete bit-exact replay"),
 })
 
 NA = {
